@@ -999,7 +999,7 @@ class Interp:
                 return alts[-1][1]
             raise_py(TypeError, "list indices must be integers or slices")
         if isinstance(o, dict):
-            if is_concrete(k):
+            if is_concrete(k) and all(is_concrete(key) for key in o.keys()):
                 try:
                     return o[k]
                 except KeyError as e:
